@@ -56,3 +56,18 @@ def register(item, z, coq_list, coq_string, num, src):
          has("fn for_stmt(", "pub(crate) enum AssignError", r"if\s+over\.is_iterable_empty\(\)\s*\{\s*return\s+StmtsCompiled::empty\(\);"), coq_type="bool")
     item("OptC", "expr_ident_needs_at_most_once", ex, whole,
          has("fn expr_ident(", "fn opt_ctx<", r"if\s+binding\.assign_count\s*==\s*AssignCount::AtMostOnce\s*\{"), coq_type="bool")
+
+    def to_bool_dict(m):
+        """is_pure_infallible_to_bool: the only arm for dict displays is the one for the EMPTY display."""
+        text = m.group(0)
+        i = text.find("pub(crate) fn is_pure_infallible_to_bool(")
+        j = text.find("pub(crate) fn as_local_non_captured(", i + 1) if i >= 0 else -1
+        body = text[i:j] if i >= 0 and j > i else ""
+        arms = re.findall(r"(?:ExprCompiled|Self)::Dict\b", body)
+        ok = re.search(r"(?:ExprCompiled|Self)::Dict\(xs\)\s+if\s+xs\.is_empty\(\)\s*=>\s*Some\(false\)", body, re.S)
+        return "true" if ok and len(arms) == 1 else "false"
+    item("OptC", "to_bool_dict_only_empty", ex, whole, to_bool_dict, coq_type="bool")
+    item("OptC", "to_bool_display_needs_pure_elems", ex, whole,
+         has("pub(crate) fn is_pure_infallible_to_bool(", "pub(crate) fn as_local_non_captured(",
+             r"ExprCompiled::List\(xs\)\s*\|\s*ExprCompiled::Tuple\(xs\)\s+if\s+xs\.iter\(\)\.all\(\|x\|\s*x\.is_pure_infallible\(\)\)\s*=>\s*\{\s*Some\(!xs\.is_empty\(\)\)"),
+         coq_type="bool")
